@@ -87,6 +87,31 @@ fn run_op(op: &str, hs: &mut Hs, lent: Option<&LeanString>, out: &mut ThreadOut)
             }
             return;
         }
+        // clone_from(&lent) into an own handle of X
+        "cfromb" => {
+            if let (Some(l), Some(i)) = (lent, hs.pick()) {
+                hs.v[i].0.clone_from(l);
+                hs.v[i].1 = TEXT.to_string();
+                out.ops_done.push(op.into());
+                let (s, sh) = &hs.v[i];
+                check(out, op, s, sh);
+            }
+            return;
+        }
+        // clone_from between two own handles of X
+        "cfrom" => {
+            let on: Vec<usize> = (0..hs.v.len()).filter(|&i| hs.on_x(&hs.v[i].0)).collect();
+            if on.len() >= 2 {
+                let (i, j) = (on[0], on[1]);
+                let (a, b) = hs.v.split_at_mut(j);
+                a[i].0.clone_from(&b[0].0);
+                a[i].1 = b[0].1.clone();
+                out.ops_done.push(op.into());
+                let (s, sh) = &hs.v[i];
+                check(out, op, s, sh);
+            }
+            return;
+        }
         _ => {}
     }
     // thread 1 may read / clone through its lent handle while it is lent
